@@ -16,7 +16,11 @@
 
 package types
 
-import "github.com/mattn/go-shellwords"
+import (
+	"fmt"
+
+	"github.com/mattn/go-shellwords"
+)
 
 // ShellCommand is a string or list of string args.
 //
@@ -78,7 +82,11 @@ func (s *ShellCommand) DecodeMapstructure(value interface{}) error {
 	case []interface{}:
 		cmd := make([]string, len(v))
 		for i, s := range v {
-			cmd[i] = s.(string)
+			str, ok := s.(string)
+			if !ok {
+				return fmt.Errorf("unexpected value type %T in command, expected a string", s)
+			}
+			cmd[i] = str
 		}
 		*s = cmd
 	}
